@@ -41,18 +41,34 @@ let parse_meta (sch : string) (lv : string) (rgs : string) : Robust_ext.file_met
       { Robust_ext.rg_columns = cols; rg_num_rows = Z0 }) (String.split_on_char '|' rgs) in
   { Robust_ext.fm_schema = schema; fm_row_groups = groups; fm_leaves = leaves }
 
-(* the page-header parser's verdict, as observed on the implementation: "none" | "<status>" | "0/hs/type/usize/csize/crc/nv/enc/dnv" *)
-let hdr_of (s : string) : n list -> Robust_ext.hdr_result =
+(* the page-header parser's verdicts, as observed on the implementation, per window length:
+   "none" | "len@verdict|len@verdict|..." with verdict = "<status>" | "0/hs/type/usize/csize/crc/nv/enc/dnv" *)
+let verdict_of (s : string) : Robust_ext.hdr_result =
   match String.split_on_char '/' s with
   | ["0"; hs; ty; us; cs; crc; nv; enc; dnv] ->
       let h = { Robust_ext.ph_type = z_of_int (int_of_string ty); ph_usize = z_of_int (int_of_string us);
                 ph_csize = z_of_int (int_of_string cs); ph_has_crc = (crc = "1"); ph_num_values = z_of_int (int_of_string nv);
                 ph_encoding = z_of_int (int_of_string enc); ph_dict_num_values = z_of_int (int_of_string dnv) } in
-      (fun _ -> Robust_ext.HdrOk (h, nat_of_int (int_of_string hs)))
-  | [st] when st <> "none" ->
+      Robust_ext.HdrOk (h, nat_of_int (int_of_string hs))
+  | [st] ->
       let c = int_of_string st in
-      if c = 33 then (fun _ -> Robust_ext.HdrShort) else (fun _ -> Robust_ext.HdrErr (z_of_int c))
-  | _ -> (fun _ -> Robust_ext.HdrShort)
+      if c = 33 then Robust_ext.HdrShort else Robust_ext.HdrErr (z_of_int c)
+  | _ -> Robust_ext.HdrShort
+
+let last_verdict (s : string) : Robust_ext.hdr_result =
+  if s = "none" then Robust_ext.HdrShort else
+  match List.rev (String.split_on_char '|' s) with
+  | e :: _ -> (match String.split_on_char '@' e with [_; v] -> verdict_of v | _ -> Robust_ext.HdrShort)
+  | [] -> Robust_ext.HdrShort
+
+let hdr_of (s : string) : n list -> Robust_ext.hdr_result =
+  if s = "none" then (fun _ -> Robust_ext.HdrShort) else begin
+    let entries = List.map (fun e -> match String.split_on_char '@' e with
+        | [l; v] -> (int_of_string l, verdict_of v)
+        | _ -> failwith "bad header oracle") (String.split_on_char '|' s) in
+    (fun bs -> let l = List.length bs in
+               match List.assoc_opt l entries with Some v -> v | None -> Robust_ext.HdrShort)
+  end
 
 let handle toks =
   match toks with
@@ -128,7 +144,7 @@ let handle toks =
            (cls s, view) in
          (* a chunk without dictionary_page_offset whose first page identifies itself as a dictionary page *)
          (* the code decides this right after the header parse, before the size checks *)
-         let self_dict = hasdict <> 1 && (match hdr_of h1 [] with
+         let self_dict = hasdict <> 1 && (match last_verdict h1 with
              | Robust_ext.HdrOk (h, _) -> int_of_z h.Robust_ext.ph_type = 2
              | _ -> false) in
          let dictoff = if self_dict then dataoff else dictoff in
